@@ -74,6 +74,9 @@ static long vfh_futex(int* uaddr, int op, int val);
 #ifndef VF_CTX
 #define VF_CTX 1  // symbolic caller context (pool thread or not, inline depth, other pool load)
 #endif
+#ifndef VF_WDEPTH
+#define VF_WDEPTH 0  // 1: virtual workers start tasks at a symbolic inline depth in {0,31,32}; 0: at depth 0
+#endif
 #ifndef VF_CHK_DELIVERY
 #define VF_CHK_DELIVERY 0
 #endif
@@ -127,6 +130,7 @@ static int32_t g_firstThrown;                // C29: token of the first exceptio
 static uint32_t g_thrown;                    // C29: number of exceptions thrown
 static bool g_excSeen;                       // C29: a generator call *started* after ... (see genBody)
 static uint32_t g_genCallsAtThrow;
+static int g_workerDepth;                    // inline depth at which virtual workers start a task (one symbolic choice per run)
 
 static inline uint32_t addOf(int k) {
   return k == 1 ? 10u : (k == 2 ? 100u : (k == 3 ? 1000u : 0u));
@@ -196,7 +200,7 @@ VF_NOINLINE static bool workerStep() {
   int32_t savedRing = info.ringIndex;
   int savedDepth = PI::inlineDepth();
   PI::registerPool(g_pool, nullptr, 0);
-  PI::inlineDepth() = symDepth();
+  PI::inlineDepth() = g_workerDepth;
   bool ran = false;
 #if VF_CHK_EXC
   bool escaped = false;
@@ -221,7 +225,8 @@ VF_NOINLINE static void runOthers() {
   }
   ++g_depth;
   for (uint32_t r = 0; r < VF_OTHERS; ++r) {
-    if (!vf_nondet_bool()) {
+    // (no choice to make when nothing is queued)
+    if (g_pool->cnt_ == 0 || !vf_nondet_bool()) {
       break;
     }
     workerStep();
@@ -428,6 +433,7 @@ struct Scenario {
     g_lim[1] = limOf(VF_L1);
     g_lim[2] = limOf(VF_L2);
     g_lim[3] = limOf(VF_L3);
+    g_workerDepth = VF_WDEPTH ? symDepth() : 0;
     g_firstThrown = -1;
     g_throwA = 99;
     g_throwB = 99;
